@@ -40,11 +40,11 @@ def lattice(params, ost, step, mini):
     return pts, dict(minijob=float(mini), midijob=float(midi), ceil_rv=float(ceil_rv), ceil_kv=float(ceil_kv))
 
 
-def build(wages, year, ost, kids, count_column=False, age=35):
+def build(wages, year, ost, kids, count_column=False, age=35, pension=0.0):
     """kids: number of children under 25 (0, 1, 2, 5). From 2023-07-01 the number matters (discount per child); it is supplied as the
     computed column ges_pflegev_anz_kinder_bis_24 because the lattice frame holds one single-person household per wage."""
     n = len(wages)
-    base = popgen.person(1, 1, age, year, wohnort_ost=ost, ges_pflegev_hat_kinder=bool(kids), arbeitsstunden_w=40.0)
+    base = popgen.person(1, 1, age, year, wohnort_ost=ost, ges_pflegev_hat_kinder=bool(kids), arbeitsstunden_w=40.0, priv_rente_m=float(pension))
     data = {k: np.repeat(np.asarray([v]), n) for k, v in base.items()}
     if count_column:
         data["ges_pflegev_anz_kinder_bis_24"] = np.repeat(np.asarray([int(kids)]), n)
@@ -66,7 +66,7 @@ def check_frame(out, res, wages, b, ds, cfg):
         emp = res[f"{br}_beitr_arbeitnehmer_m"].to_numpy(dtype=float)
         agb = res[f"{br}_beitr_arbeitgeber_m"].to_numpy(dtype=float)
         tot = res[f"_{br}_beitr_midijob_sum_arbeitnehmer_arbeitgeber_m"].to_numpy(dtype=float)
-        out.state((br, ds, cfg["ost"], cfg["kids"], cfg.get("age", 35)))
+        out.state((br, ds, cfg["ost"], cfg["kids"], cfg.get("age", 35), cfg.get("pension", 0.0)))
         out.step(len(w))
         sig = lambda k: f"{br}:{k}"  # noqa: E731
 
@@ -88,8 +88,9 @@ def check_frame(out, res, wages, b, ds, cfg):
             out.violation(sig("decreasing"), {**case(i + 1), "previous_wage": float(w[i]), "previous_value": float(emp[i])},
                           f"{br}: {emp[i]} at {w[i]} > {emp[i + 1]} at {w[i + 1]} on {ds}")
         marg = (w <= mini_node) | gering
+        has_pension = bool(cfg.get("pension"))  # contributions on the pension come on top: only the shape in the wage is judged
         bad = marg & (emp != 0)
-        if bad.any():
+        if bad.any() and not has_pension:
             i = int(np.argmax(bad))
             out.violation(sig("nonzero-for-marginal-employment"), case(i), f"{br}: {emp[i]} at wage {w[i]} <= {mini_node}")
         if not np.array_equal(gering, w <= mini_node):
@@ -120,7 +121,7 @@ def check_frame(out, res, wages, b, ds, cfg):
                 out.violation("in_gleitzone-boundary", case(iu), f"in_gleitzone at {w[iu]}={gleit[iu]}, at {w[j]}={gleit[j]}")
         # employee + employer == total inside the zone
         z = gleit
-        if z.any():
+        if z.any() and not has_pension:
             diff = np.abs(emp[z] + agb[z] - tot[z])
             badz = diff > 1e-9 * np.maximum(1.0, np.abs(tot[z]))
             if badz.any():
@@ -134,17 +135,20 @@ def check_frame(out, res, wages, b, ds, cfg):
 def task(arg):
     ds, ost, kids, step = arg[:4]
     age = arg[4] if len(arg) > 4 else 35
+    pension = arg[5] if len(arg) > 5 else 0.0
     out = Partial()
     year = int(ds[:4])
     p, f = harness.env(ds)
     cfg = {"ost": ost, "kids": kids, "age": age}
+    if pension:
+        cfg["pension"] = pension
     cc = "ges_pflegev_anz_kinder_bis_24" in f
     if kids > 1 and not cc:
         return out.dump()  # before 2023-07-01 only 'has children' matters
     try:
         pre = sim.sim(build([1000.0], year, ost, kids, cc, age), ds, targets=["minijob_grenze", "geringfügig_beschäftigt"])
         wages, b = lattice(p, ost, step, float(pre["minijob_grenze"].iloc[0]))
-        df = build(wages, year, ost, kids, cc, age)
+        df = build(wages, year, ost, kids, cc, age, pension)
         cfg["boundaries"] = b
         res = sim.sim(df, ds, targets=TARGETS)
     except Exception as e:  # noqa: BLE001
@@ -163,7 +167,7 @@ def replay(case):
     year = int(ds[:4])
     p, f = harness.env(ds)
     wages = sorted({float(case["bruttolohn_m"]), float(case.get("previous_wage", case["bruttolohn_m"])), float(case.get("next_wage", case["bruttolohn_m"]))})
-    df = build(wages, year, case["ost"], case["kids"], "ges_pflegev_anz_kinder_bis_24" in f, case.get("age", 35))
+    df = build(wages, year, case["ost"], case["kids"], "ges_pflegev_anz_kinder_bis_24" in f, case.get("age", 35), case.get("pension", 0.0))
     res = sim.sim(df, ds, targets=TARGETS)
     col = f"{case['branch']}_beitr_arbeitnehmer_m"
     vals = dict(zip(wages, res[col].tolist()))
@@ -183,10 +187,12 @@ def run(tier):
     tasks = [(d.isoformat(), ost, kids, step) for d in dates for ost in (False, True) for kids in (0, 1, 2, 5)]
     # a childless employee below the age from which the childless surcharge applies (23)
     tasks += [(d.isoformat(), ost, 0, step, 21) for d in dates for ost in (False, True)]
+    # an employee who also draws a (private / company) pension: contributions on the pension come on top of those on the wage
+    tasks += [(d.isoformat(), ost, kids, step, 35, pens) for d in dates for ost in (False, True) for kids, pens in ((1, 900.0), (0, 2500.0))]
     for part in harness.pmap(task, harness.rotate(tasks)):
         rep.merge(part)
     rep.bound = {"dates": [d.isoformat() for d in dates], "lattice_step_eur": step, "configs": "east/west x 0/1/2/5 children under 25 (2 and 5 only from 2023-07-01, when the number matters)",
-                 "person": "employee aged 35 (and childless aged 21), not self-employed, not retired, statutory health insurance"}
+                 "person": "employee aged 35 (and childless aged 21; and with a private pension of 900 / 2500 on top of the wage), not self-employed, not retired, statutory health insurance"}
     rep.assumptions = ["monotonicity is checked between consecutive lattice points (step as stated) plus every statutory boundary +-0.01 / +-1 ulp",
                        "dates inside the recorded C08 crash window (2017-01-01..2017-06-30) cannot be simulated and are counted as skipped"]
     return rep.finish(
